@@ -1,0 +1,29 @@
+//! Verification hooks (cargo feature `verif-hooks`, off by default).
+//!
+//! Re-exposes the crate-private change graph so that an external harness can
+//! load and evaluate an object from an explicit list of tip references. Adds
+//! no logic of its own: [`get_from_tips`] is [`crate::get`] with the
+//! `storage.objects(..)` lookup replaced by the caller's list.
+
+use crate::object::collaboration::error;
+use crate::{
+    change_graph::ChangeGraph, object::Reference, CollaborativeObject, Evaluate, ObjectId, Store,
+    TypeName,
+};
+
+/// Like [`crate::get`], but walking backwards from the given `tip_refs`, in
+/// the given order, instead of the references found in `storage`.
+pub fn get_from_tips<T, S>(
+    storage: &S,
+    tip_refs: &[Reference],
+    typename: &TypeName,
+    oid: &ObjectId,
+) -> Result<Option<CollaborativeObject<T>>, error::Retrieve>
+where
+    T: Evaluate<S>,
+    S: Store,
+{
+    ChangeGraph::load(storage, tip_refs.iter(), typename, oid)
+        .map(|graph| graph.evaluate(storage).map_err(error::Retrieve::evaluate))
+        .transpose()
+}
